@@ -2,6 +2,7 @@
 """Translator: the pattern-selection core of the runtime -> lean/Unimock/Generated/ScanSkel.lean
 
 Reads from /repo/src (current working tree):
+  * call_pattern.rs `CallPattern::match_inputs` — the arms of its match on (matcher present?, reporter given?);
   * eval.rs   `Eval::match_call_pattern` — the `InAnyOrder` iterator chain (receiver, adaptor sequence, the three arms of
               the `filter_map` closure, whether diagnostics are collected while scanning, which index `map_err` reports)
               and the `InOrder` block as a statement list;
@@ -70,6 +71,33 @@ def split_top(s, sep=','):
             cur += ch
     if cur.strip():
         out.append(cur)
+    return out
+
+
+def match_arms(s):
+    """arms of a whitespace-free `match` body: [(pattern, body)]; a block body needs no trailing comma"""
+    out, i = [], 0
+    while i < len(s):
+        depth, j = 0, i
+        while j < len(s) and not (depth == 0 and s.startswith('=>', j)):
+            if s[j] in '([{': depth += 1
+            elif s[j] in ')]}': depth -= 1
+            j += 1
+        if j >= len(s):
+            break
+        pat = s[i:j]; j += 2
+        if j < len(s) and s[j] == '{':
+            k = balanced(s, j)
+            body = s[j:k]
+        else:
+            depth, k = 0, j
+            while k < len(s) and not (depth == 0 and s[k] == ','):
+                if s[k] in '([{': depth += 1
+                elif s[k] in ')]}': depth -= 1
+                k += 1
+            body = s[j:k]
+        out.append((pat.strip(','), body))
+        i = k + 1 if k < len(s) and s[k] == ',' else k
     return out
 
 
@@ -229,6 +257,39 @@ def in_order(block):
     return steps
 
 
+def match_inputs_arms(cp):
+    """arms of `CallPattern::match_inputs`; returns (recognised, [(matcher, reporter, res)])"""
+    body = fn_body(cp, 'match_inputs')
+    if body is None:
+        return False, []
+    flat = re.sub(r'\s+', '', body)
+    m = re.match(r'match\(&self\.input_matcher\.dyn_matching_fn,mismatch_reporter\)\{(.*)\}$', flat, flags=re.S)
+    if not m:
+        return False, []
+    out = []
+    for pat, b in match_arms(m.group(1)):
+        pm = re.fullmatch(r'\((Some\(DynMatchingFn\((\w+)\)\)|None|_),(Some\((\w+)\)|None|_)\)', pat.strip())
+        if not pm:
+            out.append(('none', 'none', '.unknown')); continue
+        matcher = {'None': 'some false', '_': 'none'}.get(pm.group(1), 'some true')
+        reporter = {'None': 'some false', '_': 'none'}.get(pm.group(3), 'some true')
+        f, rep = pm.group(2) or 'f', pm.group(4) or 'reporter'
+        b = b.strip().rstrip(',')
+        if b.startswith('{') and b.endswith('}'):
+            b = b[1:-1]
+        call = r'Ok\(\(downcast_box::<MatchingFn<F>>\(' + re.escape(f) + r'\)\?\.0\)\(inputs,'
+        if re.fullmatch(call + re.escape(rep) + r',?\),?\)', b) and reporter == 'some true':
+            res = '.callGiven'
+        elif re.fullmatch(call + r'&mutMismatchReporter::new_disabled\(\),?\),?\)', b):
+            res = '.callDisabled'
+        elif b == 'Err(PatternError::NoMatcherFunction)':
+            res = '.errNoMatcher'
+        else:
+            res = '.unknown'
+        out.append((matcher, reporter, res))
+    return True, out
+
+
 def main():
     notes = []
     ev = strip(open(os.path.join(ROOT, 'eval.rs')).read())
@@ -282,6 +343,11 @@ def main():
     if not rec_ord:
         osteps = ['.bump', '.findOrErrCallOrder', '.newReporter', '.matchOrErrInputs', '.okSome']
         notes.append('UNRECOGNISED shape of the InOrder arm (not one block): fallback to the model\'s own statement list, C04_source_ordered_* vacuous, tie = correspondence run')
+    cp_path = os.path.join(ROOT, 'call_pattern.rs')
+    rec_mi, mi = match_inputs_arms(strip(open(cp_path).read())) if os.path.exists(cp_path) else (False, [])
+    if not rec_mi:
+        mi = [('some true', 'some true', '.callGiven'), ('some true', 'some false', '.callDisabled'), ('some false', 'none', '.errNoMatcher')]
+        notes.append('UNRECOGNISED shape of CallPattern::match_inputs: fallback to the model\'s own arms, C01_source_match_inputs vacuous, tie = correspondence run')
     b = lambda x: 'true' if x else 'false'
     lines = [
         'import Unimock.Model.ScanSkel',
@@ -298,12 +364,15 @@ def main():
         f'def orderedSteps : List OStep := [{", ".join(osteps)}]',
         '/-- `SharedState::bump_ordered_call_index` -/',
         f'def bumpSkel : BumpSkel := {{ op := {ATOM.get(op, ".other")}, delta := {delta}, seqCst := {b(seq)} }}',
+        f'def recognised_matchInputs : Bool := {b(rec_mi)}',
+        '/-- `CallPattern::match_inputs`: the arms of its `match (&self.input_matcher.dyn_matching_fn, mismatch_reporter)` -/',
+        'def matchInputsArms : List MIArm := [' + ', '.join(f'⟨{a}, {r}, {x}⟩' for a, r, x in mi) + ']',
         'end Unimock.Generated', '']
     tmp = OUT + _TMP
     open(tmp, 'w').write('\n'.join(lines))
     _finalise(tmp, OUT)
     print(f"translate_scan: anyOrder adaptors={[a[1:] for a in adaptors]} arms={on} reporterNone={rep_none} ownIdx={own_idx}; "
-          f"ordered={[s[1:] for s in osteps]}; bump={op}+{delta} seqcst={seq}" + ('; notes: ' + '; '.join(notes) if notes else ''))
+          f"ordered={[s[1:] for s in osteps]}; bump={op}+{delta} seqcst={seq}; match_inputs arms={[x[1:] for _, _, x in mi]}" + ('; notes: ' + '; '.join(notes) if notes else ''))
 
 
 if __name__ == '__main__':
